@@ -288,22 +288,30 @@ FAMILIES = {
     "long_string": lambda k: 'K::"' + "a" * (20000 * k) + '"',
     "long_words": lambda k: "K::" + " ".join("w%d" % i for i in range(300 * k)),
     "long_list": lambda k: "K::[" + ",".join(str(i) for i in range(200 * k)) + "]",
-    "long_flow_ascii": lambda k: "K::" + "->".join("A%d" % i for i in range(200 * k)),
+    "long_flow_ascii": lambda k: "K::" + "->".join("A%d" % i for i in range(500 * k)),
     "long_flow_unicode": lambda k: "K::[" + "\u2192".join("A%d" % i for i in range(250 * k)) + "]",
     "many_lines": lambda k: "\n".join("K%d::%d" % (i, i) for i in range(100 * k)),
-    "many_duplicate_keys": lambda k: "\n".join("K::%d" % i for i in range(100 * k)),
+    "many_duplicate_keys": lambda k: "\n".join("K::%d" % i for i in range(300 * k)),
     "many_blocks": lambda k: "\n".join("B%d:\n  C::1" % i for i in range(60 * k)),
     "many_comments": lambda k: "\n".join("//c %d" % i for i in range(200 * k)),
     "many_percent": lambda k: "K::" + " ".join("%d%%" % i for i in range(200 * k)),
     "many_fences": lambda k: "\n".join("K%d::\n```\nx y\n```" % i for i in range(60 * k)),
-    "fences_with_tabs": lambda k: "\n".join("K%d::\n```\n\t\t\t\t\t\t\t\t\n```" % i for i in range(60 * k)),
+    "fences_with_tabs": lambda k: "\n".join("K%d::\n```\n" % i + "\t" * 16 + "\n```" for i in range(80 * k)),
     "nested_blocks": lambda k: _fam_nested_blocks(6 * k),      # depth 6..96 (quick) / 6*64 is beyond the cap: thorough caps k at 16
     "long_unterminated_string": lambda k: 'K::"' + "a" * (20000 * k),
     "long_meta": lambda k: "META:\n" + "\n".join("  K%d::%d" % (i, i) for i in range(100 * k)),
 }
 NO_TIMING_BEYOND = {"nested_blocks": 16}
-# families whose super-linear growth is a listed finding (attribution = family name, nothing else)
-TIMING_FINDINGS = {}
+# measured and tabulated, never judged: the quadratic term (lexer.py `content[pos + 1:].lstrip()` per '%') is a memcpy whose
+# constant is so small that at these sizes the slope sits on the threshold (0.9 .. 1.3 depending on size) -- judging it would be flaky
+INFO_ONLY_FAMILIES = {"many_percent"}
+# families whose super-linear growth is a listed finding; attribution = (family, function) -- the family text is generated
+# here, so "the input is of the shape that triggers the quadratic loop" is true by construction
+TIMING_FINDINGS = {
+    ("long_flow_ascii", "tokenize"): "C20-time-repairs-rescan", ("long_flow_ascii", "parse"): "C20-time-repairs-rescan",
+    ("fences_with_tabs", "tokenize"): "C20-time-tab-fence-scan", ("fences_with_tabs", "parse"): "C20-time-tab-fence-scan",
+    ("many_duplicate_keys", "parse"): "C20-time-duplicate-key-warning",
+}
 
 
 def slope(xs, ys):
@@ -421,10 +429,12 @@ def _entry(name):
 
 def _positioned(e):
     """LexerError / ParserError must be *positioned*: LexerError carries int line/column; ParserError carries
-    the token (or, for token-less errors, at least its code) -- only the lexer contract is checked strictly."""
+    the offending token with int line/column, and an error code."""
     if type(e).__name__ == "LexerError":
         return isinstance(getattr(e, "line", None), int) and isinstance(getattr(e, "column", None), int)
-    return isinstance(getattr(e, "error_code", None), str)
+    tok = getattr(e, "token", None)
+    return isinstance(getattr(e, "error_code", None), str) and tok is not None and isinstance(getattr(tok, "line", None), int) \
+        and isinstance(getattr(tok, "column", None), int)
 
 
 def _classify_lexparse(text, fn, exc, frames):
@@ -586,7 +596,7 @@ def _reach(doc, cls_names):
     return hits
 
 
-def _classify_tool(tool, args, exc, frames):
+def _classify_tool(tool, args, exc, frames, setup=None):
     """Precise predicates for the known tool findings. -> finding id or None."""
     ps = _W["ps"]
     content = args.get("content")
@@ -605,6 +615,20 @@ def _classify_tool(tool, args, exc, frames):
                 if m.group(1) == "HolographicValue":
                     return "C20-eject-json-holographic"
                 return "C20-eject-json-nested-meta"
+        # compile_gbnf_from_meta(meta) with META.CONTRACT present and META.TYPE not a string
+        if ((tool == "octave_eject" and args.get("format") == "gbnf") or
+            (tool == "octave_compile_grammar" and args.get("format", "gbnf") == "gbnf")) and isinstance(content, str) \
+                and isinstance(exc, (TypeError, AttributeError)) and site is not None and "compile_gbnf_from_meta(doc.meta)" in site[3] \
+                and frames[-1][0] == "core/gbnf_compiler.py" and frames[-1][1] == "compile_schema" and "schema.name" in frames[-1][3]:
+            meta = ps.parse(content).meta or {}
+            if "CONTRACT" in meta and not isinstance(meta.get("TYPE", "UNKNOWN"), str):
+                return "C20-gbnf-contract-nonstring-type"
+        # octave_write re-parses the EXISTING file under `except (LexerError, ParserError)` only
+        existing = (setup or {}).get("existing")
+        if tool == "octave_write" and isinstance(existing, str) and site is not None and "baseline_content_for_diff" in site[3] \
+                and ("parse(" in site[3] or "parse_with_warnings(" in site[3]) and "changes" not in args:
+            if _classify_lexparse(existing, "parse", exc, frames) == "C20-lexer-int-digit-limit":
+                return "C20-write-baseline-foreign-exception"
     except Exception:  # noqa
         return None
     return None
@@ -645,7 +669,7 @@ def tool_one(tool, args, setup=None):
         if res[0] in ("own", "foreign"):
             e = res[1]
             fr = res[2] if res[0] == "foreign" else _frames(e.__traceback__)
-            fid = _classify_tool(tool, args, e, fr)
+            fid = _classify_tool(tool, args, e, fr, setup)
             return {"outcome": "RAISED:" + type(e).__name__,
                     "failure": {"what": f"{tool} raised {type(e).__name__}", "exc": type(e).__name__, "msg": str(e)[:200],
                                 "frames": fr[-5:], "escape_site": _escape_site(cls, fr), "finding": fid}}
@@ -735,6 +759,8 @@ def job_timing(payload, progress):
                 continue
             best, outc = None, None
             for rep in range(3):
+                if best is not None and best > 1.5:      # noise is irrelevant at this size: do not repeat
+                    break
                 progress(j * 10 + rep)
                 fn = _entry(name)
                 lx, ps = _W["lx"], _W["ps"]
@@ -824,14 +850,15 @@ class Farm:
         child.close()
         self.workers[i] = {"p": p, "conn": parent, "cell": cell, "job": None, "seen": 0, "t": time.time()}
 
-    def run(self, jobs, on_result):
+    def run(self, jobs, on_result, max_active=None):
         """jobs: list of (kind, payload); on_result(kind, payload, result). Restartable items use payload['start']."""
+        max_active = max_active or self.n
         from multiprocessing.connection import wait
         queue = list(enumerate(jobs))[::-1]
         active = 0
         while queue or active:
             for w in self.workers:
-                if w["job"] is None and queue:
+                if w["job"] is None and queue and active < max_active:
                     jid, (kind, payload) = queue.pop()
                     w["job"] = (jid, kind, payload)
                     w["seen"], w["t"] = w["cell"][1], time.time()
@@ -1033,8 +1060,9 @@ def run_case(case):
         return (f is not None, (f or {}).get("what", r["outcome"]), (f or {}).get("finding"), f or r["outcome"])
     if kind == "timing":
         sl = measure_family_inproc(case["family"], case.get("scales", [1, 2, 4, 8, 16]))
-        bad = {k: v for k, v in sl.items() if v is not None and v > SLOPE_MAX}
-        return (bool(bad), "timing slope %s" % sl, TIMING_FINDINGS.get(case["family"]), sl)
+        bad = {k: sl[k] for k in ("tokenize", "parse") if superlinear(sl, k)}
+        fids = {TIMING_FINDINGS.get((case["family"], k)) for k in bad}
+        return (bool(bad), "timing slope %s" % sl, fids.pop() if len(fids) == 1 else None, sl)
     text = case["text"] if "text" in case else "".join(chr(c) for c in case["codepoints"])
     r = lexparse_one(text)
     if r["failures"]:
@@ -1049,11 +1077,21 @@ def measure_family_inproc(family, scales):
 
 
 def slopes_of(rows):
+    """Least-squares log-log slope per function, plus ('<fn>_median_local') the median of the slopes between adjacent scale
+    points -- robust against a single cache-regime step, which bends the least-squares fit of a linear family (long_string:
+    x3.1 between 160 k and 320 k characters, then linear again)."""
     out = {}
     for name in ("tokenize", "parse"):
         pts = [(r["len"], r[name]) for r in rows if r.get(name) is not None]
         out[name] = None if len(pts) < 3 else round(slope([p[0] for p in pts], [p[1] for p in pts]), 3)
+        loc = sorted(math.log(max(b[1], 1e-9) / max(a[1], 1e-9)) / math.log(b[0] / a[0]) for a, b in zip(pts, pts[1:]) if b[0] > a[0])
+        out[name + "_median_local"] = None if len(loc) < 2 else round((loc[(len(loc) - 1) // 2] + loc[len(loc) // 2]) / 2, 3)
     return out
+
+
+def superlinear(sl, name):
+    a, b = sl.get(name), sl.get(name + "_median_local")
+    return a is not None and b is not None and a > SLOPE_MAX and b > SLOPE_MAX
 
 
 def replay(ctx, case):
@@ -1157,7 +1195,7 @@ def _run(ctx):
     quick = ctx.quick()
     _w_setup()                       # parent also needs the implementation (corpus replay, minimisation)
     vol = {}
-    seq4_sample = 0 if not quick else int(os.environ.get("C20_SEQ4", "200000"))
+    seq4_sample = 0 if not quick else int(os.environ.get("C20_SEQ4", "100000"))
     ctx.extra["rule"] = (
         "texts: (1) token sequences over the 30-symbol alphabet {alpha!r} joined by one space except around newline/indent symbols -- "
         "quick: exhaustive length<=3 + a {s4} sample of length 4, thorough: exhaustive length<=5 (length 5 sharded); (2) random sequences "
@@ -1171,7 +1209,8 @@ def _run(ctx):
         "tokenize/parse raised; for tool calls distinct (tool, flags, content).").format(alpha=ALPHABET, s4=seq4_sample, next=len(EXTENDED))
     ctx.assumptions += [
         "timing clause: measured only (log-log least-squares slope of min-of-3 wall times against len(text), threshold %.1f, "
-        "a family is reported only when the slope exceeds the threshold in three independent measurements); partial by nature" % SLOPE_MAX,
+        "a family is reported only when both the least-squares slope and the median adjacent-pair slope exceed the threshold in three "
+        "independent measurements; quick: scales x1..x16, thorough: x1..x64); partial by nature" % SLOPE_MAX,
         "unbounded recursion: measured under CPython %d.%d with sys.getrecursionlimit()==1000; inputs up to the documented cap "
         "(bracket depth < 100, block depth <= 100) must not raise RecursionError; beyond the cap outcomes are recorded only" % sys.version_info[:2],
         "hang detection: per-call timeout of %g s (setitimer inside the worker) plus a parent watchdog that kills a worker making no "
@@ -1263,7 +1302,8 @@ def _run(ctx):
         pool = texts["seq<=3"] + texts.get("seq4-sample", [])[:: max(1, len(texts.get("seq4-sample", [])) // 20000 or 1)]
         pool += texts["ext-random"][: ctx.scale(3000, 30000)] + texts["unicode"][: ctx.scale(3000, 30000)]
         pool += [t for t in texts["mutation"] if len(t) < 40000][: ctx.scale(60, 600)] + texts["curated"] + texts["structured"][: ctx.scale(1500, 15000)]
-        pool = [t for t in pool if lexcorr.in_model(t)]
+        big_int = re.compile(r"\d{%d,}" % (sys.get_int_max_str_digits() + 1))   # C20-lexer-int-digit-limit: outside the model
+        pool = [t for t in pool if lexcorr.in_model(t) and not big_int.search(t)]
         vol["lexcorr_pool"] = len(pool)
         for i in range(0, len(pool), 2500):
             jobs.append(("lexcorr", {"texts": pool[i:i + 2500], "lenient": [False]}))
@@ -1349,41 +1389,49 @@ def _run(ctx):
             def on_t(kind, payload, res):
                 got[res["family"]] = res["rows"]
             farm.run([("timing", {"family": f, "scales": [k for k in scales if k <= NO_TIMING_BEYOND.get(f, 10 ** 9)],
-                                  "cap_s": ctx.scale(6, 30)}) for f in fams], on_t)
+                                  "cap_s": ctx.scale(6, 30)}) for f in fams], on_t, max_active=max(1, NWORKERS // 2))
             return got
         t0 = time.time()
-        first = timing_round(list(FAMILIES))
+        costly = [f for f, _ in TIMING_FINDINGS]           # longest jobs first
+        first = timing_round(sorted(FAMILIES, key=lambda f: (f not in costly, f)))
         suspects = []
         for fam, rows in first.items():
             sl = slopes_of(rows)
             timing[fam] = {"slopes": sl, "rows": [{k: (round(v * 1000, 2) if isinstance(v, float) else v) for k, v in r.items()} for r in rows]}
-            if any(v is not None and v > SLOPE_MAX for v in sl.values()):
+            if any(superlinear(sl, n) for n in ("tokenize", "parse")):
                 suspects.append(fam)
         confirm = {}
-        for rnd in range(2):
-            if not suspects:
-                break
-            again = timing_round(suspects)
-            for fam, rows in again.items():
+        if suspects:                  # two independent re-measurements, run side by side on idle workers
+            got2 = []
+
+            def on_t2(kind, payload, res):
+                got2.append((res["family"], res["rows"]))
+            farm.run([("timing", {"family": f, "scales": [k for k in scales if k <= NO_TIMING_BEYOND.get(f, 10 ** 9)],
+                                  "cap_s": ctx.scale(6, 30)}) for f in suspects for _ in range(2)], on_t2, max_active=max(1, NWORKERS // 2))
+            for fam, rows in got2:
                 confirm.setdefault(fam, []).append(slopes_of(rows))
         for fam in suspects:
             sl0 = timing[fam]["slopes"]
             timing[fam]["repeat_slopes"] = confirm.get(fam, [])
             for name in ("tokenize", "parse"):
-                vals = [sl0.get(name)] + [c.get(name) for c in confirm.get(fam, [])]
-                if len(vals) == 3 and all(v is not None and v > SLOPE_MAX for v in vals):
+                runs = [sl0] + confirm.get(fam, [])
+                vals = [c.get(name) for c in runs]
+                if fam in INFO_ONLY_FAMILIES:
+                    continue
+                if len(runs) == 3 and all(superlinear(c, name) for c in runs):
                     timing[fam]["superlinear_" + name] = True
                     ctx.property_failure({"kind": "timing", "family": fam, "scales": scales, "fn": name, "slopes": vals,
                                           "rows": timing[fam]["rows"], "example_x1": FAMILIES[fam](1)[:200]},
                                          f"timing: {name} grows faster than linearly on family {fam} (slopes {vals})",
-                                         finding=TIMING_FINDINGS.get(fam))
+                                         finding=TIMING_FINDINGS.get((fam, name)))
         for fid, f in ctx.known.items():
             if f["witness"].get("kind") == "timing":
                 fam = f["witness"]["family"]
-                ctx.finding_witness(fid, any(timing.get(fam, {}).get("superlinear_" + n) for n in ("tokenize", "parse")))
+                ctx.finding_witness(fid, any(timing.get(fam, {}).get("superlinear_" + n) and TIMING_FINDINGS.get((fam, n)) == fid
+                                             for n in ("tokenize", "parse")))
         vol["timing_wall_s"] = round(time.time() - t0, 1)
         ctx.extra["timing"] = {"threshold": SLOPE_MAX, "scales": scales, "x_axis": "len(text)", "unit": "ms (min of 3)",
-                               "support_only": True, "families": timing}
+                               "support_only": True, "info_only_families": sorted(INFO_ONLY_FAMILIES), "families": timing}
         ctx.count(sum(len(v["rows"]) * 6 for v in timing.values()))
     finally:
         farm.close()
